@@ -1,7 +1,10 @@
 """`X: typing.Final = 1.5` (module-qualified Final) is emitted as `X: typing.Final` with neither type nor value; only the bare imported name `Final` gets its type argument filled in.
 
 Exit status 1 = defect present, 0 = absent, 2 = inconclusive (preconditions of the input failed).
-Mechanism keys: stub-typecheck:parse-only:misc:Type in Final[...] can only be omitted if there is an initializer:final-variable, stub-typecheck:semantic:misc:Type in Final[...] can only be omitted if there is an initializer:final-variable"""
+Mechanism keys:
+  stub-typecheck:parse-only:misc:Type in Final[...] can only be omitted if there is an initializer:final-variable
+  stub-typecheck:semantic:misc:Type in Final[...] can only be omitted if there is an initializer:final-variable
+"""
 import os
 import sys
 
